@@ -6,7 +6,7 @@ import os
 VERIF = os.path.dirname(os.path.dirname(os.path.abspath(__file__)))
 
 CHECKS = {
- "C01": ("Theorems over the Coq model (every conforming frame stream, any length form, any read boundaries, through feed, the event loop and the whole run from connect(): the message events are exactly the reference reading's) + model/implementation correspondence on generated and exhaustively enumerated conforming streams through the real session loop; aliasing of the receive buffer is decided on the implementation side only.",
+ "C01": ("Theorems over the Coq model (every conforming frame stream, any length form, any read boundaries, through feed, the event loop and the whole run from connect(): the message events are exactly the reference reading's; also on a connection that negotiated permessage-deflate, with the inflater as an oracle consumed once per compressed message in order) + model/implementation correspondence on generated and exhaustively enumerated conforming streams through the real session loop; aliasing of the receive buffer is decided on the implementation side only.",
          "Coq proof about the executable model; tie = extracted model diffed against the real client under a simulated socket; independent expected-events oracle"),
  "C02": ("Segmentation lemma proved for the generic coroutine parser and lifted through the connection model for all chunkings; metamorphic + differential runs of the real client on all cut sets of short streams and many cut sets of long ones.",
          "Coq proof (pull_split / drive_split) + metamorphic differential testing of the tie"),
@@ -14,17 +14,17 @@ CHECKS = {
          "Coq proof of the codec round-trip; correspondence on every payload length around the class boundaries"),
  "C04": ("Regenerated proof obligations for Frame.validate / is_reserved / Status.invalid_codes; whole-stream violation theorems on the model (after any conforming prefix: out-of-place data frames, every header-level violation in any length form, lengths >= 2^63, masked frames, malformed Close payloads each give exactly one ProtocolError, fail the feed and deliver nothing further); exhaustive two-byte header sweep and generated prefix x violation x rest scenarios on the real client.",
          "Coq proof + regenerated finite tables checked by vm_compute + exhaustive header sweep of the tie"),
- "C05": ("The validator's state graph is regenerated from the running code and proved equal to the model automaton, which is proved equivalent to the RFC 3629 grammar (accept <-> well-formed, reject <-> non-viable prefix) for all byte strings; stream-level theorems (after any conforming prefix, text payload bytes with no well-formed continuation fail the feed at once with one critical ProtocolError; an ill-formed complete text frame is never delivered); delivery and fail-fast through the real session loop.",
+ "C05": ("The validator's state graph is regenerated from the running code and proved equal to the model automaton, which is proved equivalent to the RFC 3629 grammar (accept <-> well-formed, reject <-> non-viable prefix) for all byte strings; stream-level theorems (after any conforming prefix, text payload bytes with no well-formed continuation fail the feed at once with one critical ProtocolError; an ill-formed complete text frame is never delivered; on a compressed connection a message that inflates to ill-formed text or that the inflater refuses is never delivered); delivery and fail-fast through the real session loop.",
          "Coq proof over all byte strings via automaton/grammar equivalence; regenerated DFA tie by vm_compute over 9x256"),
- "C07": ("Monitor-automaton theorem on the session model for all environments and strategies; exhaustive bounded enumeration of server steps x application reactions on the real loop, full traces compared with the model; handlers that take time under a selector that honours its timeout.",
+ "C07": ("Monitor-automaton theorem on the session model for all environments and strategies; a passed close / ping deadline ends the iteration; exhaustive bounded enumeration of server steps x application reactions on the real loop, full traces compared with the model; handlers that take time under a selector that honours its timeout.",
          "Coq proof by invariant over the run loop + exhaustive bounded correspondence"),
  "C08": ("Closing-handshake theorems on the model (single Close and nothing after it in every history; whole-stream theorems for both directions: the server's Close after any conforming prefix is answered by exactly one echo with its payload, the server's answer to the client's Close yields Closed and writes nothing); all small orders and random histories on the real client judged on the decoded wire.",
          "Coq proof by invariant + correspondence"),
  "C09": ("No-escape theorem on the model over the fault oracle; systematic fault injection at every socket operation and byte offset on the real client; exhaustive connect-outcome patterns against the real _connect_sock.",
          "Coq proof over all fault scripts of the model + fault enumeration of the tie"),
- "C13": ("Release theorem on the model's abandonment semantics for every yield site and mechanism; abandonment at every event index x 5 mechanisms (incl. reconnecting the object before the old iterator is released) on the real generators (CPython finalisation is modelled, the tie checks it).",
+ "C13": ("Release theorem on the model's abandonment semantics for every yield site and mechanism, and no use of the socket after socket.close() in any run; abandonment at every event index x 6 mechanisms (incl. reconnecting the object before the old iterator is released, and an exception leaving the with-block while the iterator is still referenced) on the real generators (CPython finalisation is modelled, the tie checks it).",
          "Coq proof over all yield sites of the model + exhaustive abandonment runs"),
- "C14": ("Pong theorem on the model (each Ping event is immediately preceded by its Pong while no Close was sent); streams with pings anywhere on the real client.",
+ "C14": ("Pong theorems on the model (each Ping event is immediately preceded by its Pong while no Close was sent; whole stream: for any application that only sends, the library writes exactly one Pong per Ping, in order, also on a compressed connection); streams with pings anywhere on the real client, Pongs judged as decoded by a strict RFC 6455 server.",
          "Coq proof + correspondence"),
  "C15": ("Timer theorems over integer ticks (poll spacing, ping periods, unresponsive, close timeout), also with the wake-up hypothesis derived from a selector that honours its timeout; the step functions tied to the running _check_* methods and _regular by a regenerated table (kernel-checked on every run); the real loop on a virtual clock, under scripted wake-ups and under a simulated selector that sleeps exactly as long as it is asked to, over the full parameter grid, time-stamped traces compared with the model and judged against the bounds.",
          "Coq proof over Z ticks + regenerated decision table + virtual-clock correspondence"),
@@ -38,7 +38,7 @@ CHECKS = {
          "Coq proof over all schedules of the action-level model + systematic schedule enumeration of the real code"),
  "C17": ("In the model connect() replaces the whole per-connection record, so the theorem holds by construction; its content -- nothing mutable survives connect() -- is tied to the code by the regenerated object-graph inventory and by differential runs of second connections against fresh objects after every kind of abnormal ending (including an abandoned iterator that is released only by the next connect(): finding KF-I, repaired). Partial.",
          "regenerated inventory obligation + differential testing (second connection vs fresh object)"),
- "C18": ("No-stall theorem on the transport model (the loop blocks only when the TLS pending buffer and the kernel queue are both empty; everything available is handed to feed before blocking); the real loop and the real SelectorBase.wait over a simulated kernel/TLS layer on a virtual clock, plus real loopback TCP and TLS runs. Partial: kernel and TLS are modelled.",
+ "C18": ("No-stall theorem on the transport model (the loop blocks only when the TLS pending buffer and the kernel queue are both empty; everything available is handed to feed before blocking; joined with the delivery theorem: the messages of an available conforming frame sequence are all yielded, and their Pongs written, before the loop blocks again); the real loop and the real SelectorBase.wait over a simulated kernel/TLS layer on a virtual clock, plus real loopback TCP and TLS runs. Partial: kernel and TLS are modelled.",
          "Coq proof over the transport model + virtual-clock correspondence + real-socket tests"),
  "C19": ("Theorems on the proxy negotiation model (reuses the parser segmentation lemma): only a complete 200 header block yields a tunnel, in the whole attempt the upgrade request is written only over an established tunnel, and the proxy's address, TLS flag and Basic credentials are functions of the proxy URL's components (URL model, base64 round trip); the real _connect/_connect_proxy against a fake socket module with every reply kind, URL shape and segmentation; all socket operations logged.",
          "Coq proof over the proxy parser model + correspondence on logged socket operations"),
